@@ -85,6 +85,13 @@ func (c *Ctx) Undecided(rule, key string, detail string) {
 func (c *Ctx) Fn(rule, key string) *Unit {
 	u := c.P.Func(key)
 	if u == nil {
+		if c.P.RemovedNotRenamed(key) {
+			// the function existed in the tree the rule was written for, it is gone, and no new function of the same
+			// owner has its signature (nothing that could be it under another name): the construct the rule states a
+			// condition about was removed — e.g. an override deleted so that the embedded base method runs instead
+			c.add(rule, key, token.NoPos, "violated", "the function this rule is anchored on was removed (not renamed: no new function of the same receiver/package has its signature): the mechanism it implements no longer exists", true)
+			return nil
+		}
 		c.Undecided(rule, key, "unresolved-anchor: function not found in the loaded program")
 		return nil
 	}
